@@ -4425,13 +4425,13 @@ def vy_zip(lhs, rhs, ctx):
     if isinstance(lhs, types.FunctionType):
         return vy_zip(
             rhs,
-            LazyList(map(lambda x: safe_apply(lhs, x, ctx=ctx), rhs)),
+            LazyList(safe_apply(lhs, x, ctx=ctx) for x in rhs),
             ctx=ctx,
         )
     elif isinstance(rhs, types.FunctionType):
         return vy_zip(
             lhs,
-            LazyList(map(lambda x: safe_apply(rhs, x, ctx=ctx), lhs)),
+            LazyList(safe_apply(rhs, x, ctx=ctx) for x in lhs),
             ctx=ctx,
         )
     else:
